@@ -369,6 +369,46 @@ def declare(reg):
                  ghost_final=collections.OrderedDict(att=(List(Comp), "run_components_att"), graph=(Map(Comp, Set(Comp)), "components")),
                  ensures=RUN_POST)
 
+    # ------------------------------------------------------------------ dependency closure (C01): walk_dependencies and the visitor of get_dependency_graph
+    # the module-level name `graph` stands for the `graph` dictionary captured by get_dependency_graph's visitor (a defaultdict(set)): the visitor
+    # contract says what one call adds; walk_dependencies.visit is verified against it (recursive: its own contract at the recursive call,
+    # termination on an acyclic registry not proved); get_dependency_graph.<locals>.visitor is verified to BE such a visitor.
+    Vis = U("Visitor")
+    reg.sort(Visitor=Vis)
+    reg.cls("Visitor", __truthy__=True)
+    reg.glob(M, graph=Map(Comp, Set(Comp)), VISITED=Set(Comp))
+    EDGES_OF = "(m[x] if x in m else emptyset_comp())"
+    reg.specfun("emptyset_comp", dict(), Set(Comp), None)
+    reg.axiom("isempty(emptyset_comp())")
+    reg.specfun("edges_of", dict(m=Map(Comp, Set(Comp)), x=Comp), Set(Comp), EDGES_OF)
+    GROWS = "forall(x, Comp, subset(edges_of(old(graph), x), edges_of(graph, x)))"
+    reg.callable_sorts = getattr(reg, "callable_sorts", {})
+    reg.callable_sorts["Visitor"] = reg.external(
+        "<visitor>", params=collections.OrderedDict(v=Vis, c=Comp, parent=Opt(Comp)), modifies=["graph"], raises={},
+        ensures=["implies(parent is None, graph == old(graph))",
+                 "implies(parent is not None, c in edges_of(graph, some(parent)))", GROWS],
+        note="the visitor get_dependency_graph passes to walk_dependencies: records the edge parent -> c (verified for the real visitor below)")
+    CLOSED = "forall(x, VISITED, forall(d, deps_of(x), d in edges_of(graph, x) and d in VISITED))"
+    reg.contract(M, "walk_dependencies.<locals>.visit", params=collections.OrderedDict(parent=Comp, visitor=Vis),
+                 modifies=["graph", "VISITED"], raises={},
+                 ghost_on=[("visit(d, visitor)", "VISITED.add(d)", "after")],
+                 # VISITED: the components whose own dependencies have all been recorded (and visited); a call leaves `parent` ready to join it
+                 requires=[CLOSED],
+                 loops={0: [CLOSED, GROWS, "subset(old(VISITED), VISITED)",
+                            "forall(j, range(0, i_0), it_0[j] in edges_of(graph, parent) and it_0[j] in VISITED)"]},
+                 ensures=[CLOSED, GROWS, "subset(old(VISITED), VISITED)",
+                          "forall(d, deps_of(parent), d in edges_of(graph, parent) and d in VISITED)"])
+    reg.defaultdicts["graph"] = "set()"
+    reg.contract(M, "get_dependency_graph.<locals>.visitor", params=collections.OrderedDict(c=Comp, parent=Opt(Comp)), modifies=["graph"], raises={},
+                 ensures=["implies(parent is None, graph == old(graph))",
+                          "implies(parent is not None, c in edges_of(graph, some(parent)))", GROWS.replace("WALKED", "graph")],
+                 note="the real visitor: exactly the assumed <visitor> contract, over the captured dictionary")
+    reg.contract(M, "walk_dependencies", params=collections.OrderedDict(root=Comp, visitor=Vis), modifies=["graph", "VISITED"], raises={},
+                 requires=[CLOSED],
+                 ghost_on=[("visit(root, visitor)", "VISITED.add(root)", "after")],
+                 # everything reachable from the root has all its declared dependencies recorded: the walked graph is closed under them
+                 ensures=["root in VISITED", CLOSED, GROWS])
+
     # ------------------------------------------------------------------ toposort (insights/contrib/toposort.py)
     reg.specfun("nodes", dict(g=Map(Comp, Set(Comp))), Set(Comp), "union(keys(g), bigunion(g))")
     reg.sort(GraphT=Map(Comp, Set(Comp)))
